@@ -519,7 +519,7 @@ def fault_scripts(seed, n, tid0, kinds=None):
     kinds = kinds or KINDS
     res = []
     DESTROY = ["clear", "delete", "delete_batch", "delete_all", "edelete_maintain", "insert_dead", "or_insert_occ",
-               "lazy_remove", "drain_partial", "remove", "overwrite", "lazy_overwrite"]
+               "lazy_remove", "drain_partial", "remove", "overwrite", "lazy_overwrite", "builder_twice"]
     for i in range(n):
         rng = random.Random((seed * 48271 + i * 101) & 0xFFFFFFFF)
         S = rng.choice([1, 2, 2, 3])
@@ -577,10 +577,16 @@ def fault_scripts(seed, n, tid0, kinds=None):
                 k = 1
             elif d == "drain_partial":
                 inner = {"o": "wop", "k": "drain", "s": s, "n": rng.choice([1, 2, -1])}
+            elif d == "builder_twice":
+                # an entity builder names one component type twice: the second value replaces the first, whose
+                # destructor panics - the chain is interrupted and the builder is dropped by the unwinding
+                inner = {"o": rng.choice(["ebuild", "ebuild_drop"]), "with": [x for x in range(S) if x != s and rng.random() < 0.5] + [s, s]}
+                k = 1
             elif d == "remove":
-                inner = {"o": "sop", "path": "remove", "s": s, "h": rng.choice(sorted(live)) if live else 0}
+                # (every way of removing one component, the generic ones that destroy it inside the library too)
+                inner = {"o": "sop", "path": rng.choice(PATHS["remove"]), "s": s, "h": rng.choice(sorted(live)) if live else 0}
             elif d == "overwrite":
-                inner = {"o": "sop", "path": rng.choice(["insert", "entry_replace"]), "s": s, "h": rng.choice(sorted(live)) if live else 0}
+                inner = {"o": "sop", "path": rng.choice(PATHS["insert"] + PATHS["replace"]), "s": s, "h": rng.choice(sorted(live)) if live else 0}
             else:
                 inner = {"o": "wop", "k": "clear", "s": s}
             ops.append({"o": "fault", "k": k, "op": inner})
@@ -599,6 +605,10 @@ def fault_scripts(seed, n, tid0, kinds=None):
                     live.discard(h)
                 else:
                     ops.append({"o": "maintain"})
+            if d == "builder_twice":
+                # the deletion the dropped builder asked for takes effect here
+                ops.append({"o": "maintain"})
+                ops.append({"o": "wop", "k": "count", "s": s})
         sc = {"tid": tid0 + i, "cfg": {"kinds": ks, "reg": [REGS[(i + j) % len(REGS)] for j in range(S)]}, "ops": ops, "sweep": "full"}
         if rng.random() < 0.35:
             sc["fault_teardown"] = rng.choice([1, 2, 3])
